@@ -1,6 +1,666 @@
-//! C27 — not implemented yet.
-use mc_core::Ctx;
+//! C27 — decimal text parsing and printing are exact inverses.
+//!
+//! Bounded-exhaustive input enumeration for `Decimal` (192 bit, scale 18) and `PreciseDecimal`
+//! (256 bit, scale 36):
+//!  (1) every value of the boundary lattice L(T): the printed text, read by the *reference* numeral
+//!      reader below, denotes exactly the value, and `from_str(to_string(v)) == v`;
+//!  (2) every string of length <= N over {0,1,9,-,+,.,' ',e,a,_}, a family of boundary numerals around
+//!      the integer-digit / fraction-digit / range limits, every single-point mutation and every <=3-char
+//!      insertion of {-,+,.} into valid numerals (incl. non-ASCII and NUL): `from_str` accepts exactly the
+//!      strings of the reference grammar and yields their exact value; every accepted value is printed and
+//!      read back as well.
+//!
+//! Reference grammar (the statement's "optionally-signed decimal numerals with at most the type's number
+//! of fractional digits that fit in range"):   '-'? [0-9]+ ( '.' [0-9]{1,scale} )?   with the exact value
+//! in [MIN, MAX]. Statement-silent forms are *informational* only (never a violation whichever way the
+//! code decides; if the code accepts one, the value must still be the exact one):
+//!   leading '+'  ("+5"),  empty fraction ("1."),  empty integer part (".5").
+//! Leading zeros, "-0" and trailing zeros in the fraction are ordinary numerals (must be accepted).
+//!
+//! The reference is independent of the code under test: hand-written byte scanner + num-bigint; values
+//! cross the boundary as raw 64-bit limbs (`from_digits` / `to_digits`), not through any parser.
+use mc_core::{par_for, par_range, Ctx, Level, Local};
+use num_bigint::BigInt;
+use num_traits::{One, Signed, Zero};
+use radix_common::math::{Decimal, PreciseDecimal, I192, I256};
+use serde_json::{json, Map, Value};
+use std::collections::BTreeMap;
+use std::str::FromStr;
+use std::sync::Mutex;
 
-pub fn run(_ctx: Ctx) -> ! {
-    mc_core::machinery_error("C27: not implemented")
+// ------------------------------------------------------------------------------------------------
+// the two subjects behind one small interface
+// ------------------------------------------------------------------------------------------------
+
+trait Fx: Copy + PartialEq + Send + Sync {
+    const NAME: &'static str;
+    const SCALE: usize;
+    const BITS: u32;
+    fn from_raw(x: &BigInt) -> Option<Self>;
+    fn raw(&self) -> BigInt;
+    /// Err carries the Debug text of the parse error.
+    fn parse(s: &str) -> Result<Self, String>;
+    fn print(&self) -> String;
+}
+
+fn to_limbs<const N: usize>(x: &BigInt) -> Option<[u64; N]> {
+    let bits = 64 * N;
+    let half: BigInt = BigInt::one() << (bits - 1);
+    if x < &-half.clone() || x >= &half {
+        return None;
+    }
+    let m: BigInt = if x.is_negative() { x + (BigInt::one() << bits) } else { x.clone() };
+    let (_, digits) = m.to_u64_digits();
+    let mut out = [0u64; N];
+    for (i, d) in digits.iter().enumerate() {
+        out[i] = *d;
+    }
+    Some(out)
+}
+
+fn from_limbs<const N: usize>(d: [u64; N]) -> BigInt {
+    let mut acc = BigInt::zero();
+    for i in (0..N).rev() {
+        acc = (acc << 64) + BigInt::from(d[i]);
+    }
+    if d[N - 1] >> 63 == 1 {
+        acc -= BigInt::one() << (64 * N);
+    }
+    acc
+}
+
+impl Fx for Decimal {
+    const NAME: &'static str = "Decimal";
+    const SCALE: usize = 18;
+    const BITS: u32 = 192;
+    fn from_raw(x: &BigInt) -> Option<Self> {
+        to_limbs::<3>(x).map(|l| Decimal::from_attos(I192::from_digits(l)))
+    }
+    fn raw(&self) -> BigInt {
+        from_limbs::<3>(self.attos().to_digits())
+    }
+    fn parse(s: &str) -> Result<Self, String> {
+        Decimal::from_str(s).map_err(|e| format!("{e:?}"))
+    }
+    fn print(&self) -> String {
+        self.to_string()
+    }
+}
+
+impl Fx for PreciseDecimal {
+    const NAME: &'static str = "PreciseDecimal";
+    const SCALE: usize = 36;
+    const BITS: u32 = 256;
+    fn from_raw(x: &BigInt) -> Option<Self> {
+        to_limbs::<4>(x).map(|l| PreciseDecimal::from_precise_subunits(I256::from_digits(l)))
+    }
+    fn raw(&self) -> BigInt {
+        from_limbs::<4>(self.precise_subunits().to_digits())
+    }
+    fn parse(s: &str) -> Result<Self, String> {
+        PreciseDecimal::from_str(s).map_err(|e| format!("{e:?}"))
+    }
+    fn print(&self) -> String {
+        self.to_string()
+    }
+}
+
+fn pow10(k: usize) -> BigInt {
+    let mut p = BigInt::one();
+    for _ in 0..k {
+        p *= 10u32;
+    }
+    p
+}
+
+fn max_raw(bits: u32) -> BigInt {
+    (BigInt::one() << (bits - 1)) - 1u32
+}
+
+// ------------------------------------------------------------------------------------------------
+// reference numeral reader / printer
+// ------------------------------------------------------------------------------------------------
+
+#[derive(Debug, Clone, PartialEq)]
+enum Ref {
+    /// a numeral of the grammar, with its exact raw (sub-unit) value
+    Accept(BigInt),
+    /// not a numeral under any reading of the statement
+    Reject(&'static str),
+    /// statement-silent form; the value it would denote if taken as a numeral
+    Silent(&'static str, BigInt),
+}
+
+fn digits_value(d: &[u8]) -> BigInt {
+    // d are ASCII digits (possibly empty => 0)
+    let mut acc = BigInt::zero();
+    // chunks of 18 digits through u64 to stay cheap on long inputs
+    for chunk in d.chunks(18) {
+        let mut c = 0u64;
+        for b in chunk {
+            c = c * 10 + (*b - b'0') as u64;
+        }
+        acc = acc * pow10_u64(chunk.len()) + c;
+    }
+    acc
+}
+
+fn pow10_u64(k: usize) -> u64 {
+    10u64.pow(k as u32)
+}
+
+fn reference_read(s: &str, scale: usize, bits: u32) -> Ref {
+    let b = s.as_bytes();
+    if !s.is_ascii() {
+        return Ref::Reject("non-ascii");
+    }
+    let mut i = 0;
+    let mut negative = false;
+    let mut plus = false;
+    if i < b.len() && (b[i] == b'-' || b[i] == b'+') {
+        negative = b[i] == b'-';
+        plus = b[i] == b'+';
+        i += 1;
+    }
+    let int_start = i;
+    while i < b.len() && b[i].is_ascii_digit() {
+        i += 1;
+    }
+    let int = &b[int_start..i];
+    let mut has_point = false;
+    let mut frac: &[u8] = &[];
+    if i < b.len() && b[i] == b'.' {
+        has_point = true;
+        i += 1;
+        let fs = i;
+        while i < b.len() && b[i].is_ascii_digit() {
+            i += 1;
+        }
+        frac = &b[fs..i];
+    }
+    if i != b.len() {
+        return Ref::Reject("malformed");
+    }
+    if int.is_empty() && frac.is_empty() {
+        return Ref::Reject("no-digits");
+    }
+    if frac.len() > scale {
+        return Ref::Reject("too-many-fraction-digits");
+    }
+    let mut v = digits_value(int) * pow10(scale) + digits_value(frac) * pow10(scale - frac.len());
+    if negative {
+        v = -v;
+    }
+    let max = max_raw(bits);
+    let min: BigInt = -max.clone() - 1u32;
+    if v > max || v < min {
+        return Ref::Reject("out-of-range");
+    }
+    if int.is_empty() {
+        return Ref::Silent("empty-integer-part", v);
+    }
+    if has_point && frac.is_empty() {
+        return Ref::Silent("empty-fraction", v);
+    }
+    if plus {
+        return Ref::Silent("leading-plus", v);
+    }
+    Ref::Accept(v)
+}
+
+/// canonical text of a raw value: '-'? digits ('.' digits-without-trailing-zeros)?
+fn reference_print(raw: &BigInt, scale: usize) -> String {
+    let a = raw.abs();
+    let p = pow10(scale);
+    let q = &a / &p;
+    let r = &a % &p;
+    let mut s = String::new();
+    if raw.is_negative() {
+        s.push('-');
+    }
+    s.push_str(&q.to_string());
+    if !r.is_zero() {
+        let f = format!("{:0>width$}", r.to_string(), width = scale);
+        s.push('.');
+        s.push_str(f.trim_end_matches('0'));
+    }
+    s
+}
+
+/// `sign? digits '.' sign digits` — the shape of observation O2
+fn is_signed_fraction(s: &str) -> bool {
+    let Some((a, f)) = s.split_once('.') else { return false };
+    let a = a.strip_prefix(['-', '+']).unwrap_or(a);
+    let Some(f) = f.strip_prefix(['-', '+']) else { return false };
+    !a.is_empty() && a.bytes().all(|c| c.is_ascii_digit()) && !f.is_empty() && f.bytes().all(|c| c.is_ascii_digit())
+}
+
+// ------------------------------------------------------------------------------------------------
+// deterministic violation collector: keeps, per key, the count and the smallest failing input
+// ------------------------------------------------------------------------------------------------
+
+pub(crate) struct Found {
+    count: u64,
+    input: String,
+    what: String,
+    case: Value,
+}
+
+#[derive(Default)]
+pub(crate) struct Collector {
+    m: Mutex<BTreeMap<String, Found>>,
+}
+
+impl Collector {
+    pub(crate) fn add(&self, key: String, input: &str, what: impl FnOnce() -> String, case: impl FnOnce() -> Value) {
+        let mut g = self.m.lock().unwrap();
+        match g.get_mut(&key) {
+            Some(f) => {
+                f.count += 1;
+                if (input.len(), input) < (f.input.len(), f.input.as_str()) {
+                    f.input = input.to_string();
+                    f.what = what();
+                    f.case = case();
+                }
+            }
+            None => {
+                g.insert(key, Found { count: 1, input: input.to_string(), what: what(), case: case() });
+            }
+        }
+    }
+    /// number of failing inputs seen (all keys)
+    pub(crate) fn total(&self) -> u64 {
+        self.m.lock().unwrap().values().map(|f| f.count).sum()
+    }
+    pub(crate) fn flush(&self, ctx: &Ctx) {
+        let g = self.m.lock().unwrap();
+        for (k, f) in g.iter() {
+            ctx.violation(k.clone(), format!("{} [{} failing inputs in this run; smallest shown]", f.what, f.count), f.case.clone());
+        }
+    }
+}
+
+fn show(s: &str) -> String {
+    format!("{s:?}")
+}
+
+// ------------------------------------------------------------------------------------------------
+// the checks
+// ------------------------------------------------------------------------------------------------
+
+/// One input string against the reference. `family` only labels classes/samples.
+fn check_string<T: Fx>(s: &str, family: &str, l: &mut Local, col: &Collector) {
+    l.eval();
+    let expected = reference_read(s, T::SCALE, T::BITS);
+    let got = mc_core::catch(|| T::parse(s));
+    let case = || json!({"type": T::NAME, "input": s, "family": family});
+    match (&expected, &got) {
+        (Ref::Accept(v), Ok(Ok(x))) => {
+            let r = x.raw();
+            if &r != v {
+                col.add(format!("wrong-value:{}", T::NAME), s, || format!("{}::from_str({}) = raw {} but the numeral denotes raw {}", T::NAME, show(s), r, v), case);
+            } else {
+                l.class("parse:accepted-exact");
+                check_value_roundtrip::<T>(x, "from-accepted-string", l, col);
+            }
+        }
+        (Ref::Accept(v), Ok(Err(e))) => {
+            col.add(format!("rejects-valid-numeral:{}", T::NAME), s, || format!("{}::from_str({}) = Err({e}) but it is a numeral of the grammar with in-range value raw {}", T::NAME, show(s), v), case);
+        }
+        (Ref::Accept(_), Err(p)) => {
+            col.add(format!("panics-on-valid-numeral:{}", T::NAME), s, || format!("{}::from_str({}) panicked: {p}", T::NAME, show(s)), case);
+        }
+        (Ref::Reject(why), Ok(Ok(x))) => {
+            let key = if is_signed_fraction(s) { "accepts-signed-fraction".to_string() } else { format!("accepts-{why}") };
+            col.add(format!("{key}:{}", T::NAME), s, || format!("{}::from_str({}) = Ok({}) but the text is not a decimal numeral ({why})", T::NAME, show(s), x.print()), case);
+        }
+        (Ref::Reject(why), Ok(Err(_))) => {
+            l.class(&format!("parse:rejected:{why}"));
+        }
+        (Ref::Reject(_), Err(_)) => {
+            // the statement does not promise "no panic" here; not accepting is all it demands
+            l.class("parse:rejected:by-panic");
+            l.info(&format!("{}:from_str-panicked-on-a-non-numeral", T::NAME));
+        }
+        (Ref::Silent(form, v), Ok(Ok(x))) => {
+            let r = x.raw();
+            if &r != v {
+                col.add(format!("wrong-value:{}", T::NAME), s, || format!("{}::from_str({}) = raw {} but read as a numeral it denotes raw {}", T::NAME, show(s), r, v), case);
+            } else {
+                l.class("parse:silent-form-accepted-exact");
+                l.info(&format!("{}:{form}:accepted", T::NAME));
+            }
+        }
+        (Ref::Silent(form, _), _) => {
+            l.class("parse:silent-form-rejected");
+            l.info(&format!("{}:{form}:rejected", T::NAME));
+        }
+    }
+}
+
+/// print -> (reference reader: exact value) and print -> parse == value
+fn check_value_roundtrip<T: Fx>(x: &T, family: &str, l: &mut Local, col: &Collector) {
+    let raw = x.raw();
+    let canon = reference_print(&raw, T::SCALE);
+    let case = || json!({"type": T::NAME, "raw": raw.to_string(), "family": family});
+    let text = match mc_core::catch(|| x.print()) {
+        Ok(t) => t,
+        Err(p) => {
+            col.add(format!("print-panics:{}", T::NAME), &canon, || format!("{}(raw {raw}).to_string() panicked: {p}", T::NAME), case);
+            return;
+        }
+    };
+    match reference_read(&text, T::SCALE, T::BITS) {
+        Ref::Accept(v) if v == raw => {}
+        other => {
+            col.add(format!("print-not-exact:{}", T::NAME), &canon, || format!("{}(raw {raw}) prints as {} which the reference reads as {other:?}", T::NAME, show(&text)), case);
+            return;
+        }
+    }
+    if text != canon {
+        // exact but not the shortest form (e.g. trailing zeros): the statement does not forbid it
+        l.info(&format!("{}:printed-text-not-canonical", T::NAME));
+    }
+    match mc_core::catch(|| T::parse(&text)) {
+        Ok(Ok(back)) if back == *x => {
+            l.class("roundtrip:print-parse-identical");
+        }
+        other => {
+            let o = match other {
+                Ok(Ok(b)) => format!("Ok(raw {})", b.raw()),
+                Ok(Err(e)) => format!("Err({e})"),
+                Err(p) => format!("panic: {p}"),
+            };
+            col.add(format!("roundtrip:{}", T::NAME), &canon, || format!("{}(raw {raw}) prints as {} and parses back as {o}", T::NAME, show(&text)), case);
+        }
+    }
+}
+
+fn lattice<T: Fx>() -> Vec<BigInt> {
+    let max = max_raw(T::BITS);
+    let min: BigInt = -max.clone() - 1u32;
+    let mut v: Vec<BigInt> = vec![];
+    let mut pm = |x: BigInt| {
+        v.push(-x.clone());
+        v.push(x);
+    };
+    for i in 0i32..=2000 {
+        pm(BigInt::from(i));
+    }
+    let ndig = max.to_string().len();
+    for k in 0..=ndig {
+        let p = pow10(k);
+        for d in -1i32..=1 {
+            pm(&p + d);
+        }
+        pm(&p * 5u32);
+        pm(&p / 3u32);
+        pm(&p / 7u32);
+        // shapes with zeros inside / at the end of the fraction and of the integer part
+        for m in [12u32, 101, 120, 909, 1001] {
+            pm(&p * m);
+        }
+    }
+    for k in 0..T::BITS {
+        let p: BigInt = BigInt::one() << k;
+        for d in -1i32..=1 {
+            pm(&p + d);
+        }
+    }
+    let one = pow10(T::SCALE);
+    let r = (&max * &one).sqrt();
+    let t = (&max / &one) * &one;
+    for d in -1i32..=1 {
+        pm(&r + d);
+        pm(&t + d);
+    }
+    for d in 0u32..=2 {
+        v.push(&min + d);
+        v.push(&max - d);
+    }
+    v.retain(|x| x >= &min && x <= &max);
+    v.sort();
+    v.dedup();
+    v
+}
+
+/// numerals around the integer-digit limit, the fraction-digit limit and the range limit
+fn boundary_numerals<T: Fx>() -> Vec<String> {
+    let max = max_raw(T::BITS);
+    let one = pow10(T::SCALE);
+    let max_int = &max / &one;
+    let max_frac = &max % &one; // |MIN| has fraction max_frac + 1
+    let nd = max_int.to_string().len();
+    let ints: Vec<String> = vec![
+        "0".into(),
+        "00".into(),
+        "1".into(),
+        (&max_int - 1u32).to_string(),
+        max_int.to_string(),
+        (&max_int + 1u32).to_string(),
+        format!("000{}", max_int),
+        "9".repeat(nd),
+        format!("1{}", "0".repeat(nd)),
+        max.to_string(),                 // fits the raw integer type, overflows when scaled
+        (&max + 1u32).to_string(),          // does not fit the raw integer type
+        (&max + 2u32).to_string(),
+        "9".repeat(100),
+    ];
+    let mut fracs: Vec<String> = vec![];
+    for len in [1usize, T::SCALE - 1, T::SCALE, T::SCALE + 1, T::SCALE + 2] {
+        fracs.push("0".repeat(len));
+        fracs.push("9".repeat(len));
+        fracs.push(format!("{}1", "0".repeat(len - 1)));
+        fracs.push(format!("1{}", "0".repeat(len - 1)));
+        for d in -1i32..=2 {
+            // the exact MAX fraction (+d in the last place), cut or zero-extended to `len` digits
+            let f = format!("{:0>width$}", (&max_frac + d).to_string(), width = T::SCALE);
+            let mut f: String = f.chars().take(len).collect();
+            while f.len() < len {
+                f.push('0');
+            }
+            fracs.push(f);
+        }
+    }
+    fracs.sort();
+    fracs.dedup();
+    let mut out = vec![];
+    for sign in ["", "-", "+"] {
+        for i in &ints {
+            out.push(format!("{sign}{i}"));
+            out.push(format!("{sign}{i}."));
+            for f in &fracs {
+                out.push(format!("{sign}{i}.{f}"));
+                // O2 shape at full width: a sign where the first fraction digit should be
+                if f.len() >= 2 {
+                    out.push(format!("{sign}{i}.-{}", &f[1..]));
+                    out.push(format!("{sign}{i}.+{}", &f[1..]));
+                }
+            }
+        }
+        for f in &fracs {
+            out.push(format!("{sign}.{f}"));
+        }
+    }
+    out.sort();
+    out.dedup();
+    out
+}
+
+/// single-point mutations and short insertions applied to valid numerals
+fn mutated_numerals<T: Fx>() -> Vec<String> {
+    let full = format!("-9.{}1", "0".repeat(T::SCALE - 1));
+    let max_text = reference_print(&max_raw(T::BITS), T::SCALE);
+    let min_text = reference_print(&(-max_raw(T::BITS) - 1u32), T::SCALE);
+    let bases: Vec<String> = vec!["0".into(), "1.5".into(), "-0.05".into(), "123.456".into(), "+7.25".into(), full, max_text, min_text];
+    let alphabet: Vec<u8> = b"0159-+. eE_,x\0\t\n".to_vec();
+    let mut out: Vec<String> = vec![];
+    for b in &bases {
+        mc_core::gen::mutations(b.as_bytes(), &alphabet, |m| out.push(String::from_utf8(m.to_vec()).expect("ascii")));
+        // non-ASCII: full-width digit one, Arabic-Indic digit five, e-acute, an emoji — substituted and inserted
+        let chars: Vec<char> = b.chars().collect();
+        for na in ['１', '٥', 'é', '😀', '−'] {
+            for i in 0..=chars.len() {
+                let mut ins = chars.clone();
+                ins.insert(i, na);
+                out.push(ins.into_iter().collect());
+                if i < chars.len() {
+                    let mut sub = chars.clone();
+                    sub[i] = na;
+                    out.push(sub.into_iter().collect());
+                }
+            }
+        }
+        // every contiguous insertion of 1..=3 chars over {-,+,.} at every position
+        let ins_alpha = ['-', '+', '.'];
+        for n in 1..=3usize {
+            mc_core::gen::seqs_exact(3, n, &mut |ix: &[usize]| {
+                let piece: String = ix.iter().map(|j| ins_alpha[*j]).collect();
+                for i in 0..=b.len() {
+                    out.push(format!("{}{}{}", &b[..i], piece, &b[i..]));
+                }
+            });
+        }
+    }
+    out.sort();
+    out.dedup();
+    out
+}
+
+const ALPHABET: [u8; 10] = *b"019-+. ea_";
+
+fn run_type<T: Fx>(ctx: &Ctx, col: &Collector, max_len: u32, cov: &mut Map<String, Value>) {
+    // (1) lattice
+    let lat = lattice::<T>();
+    let values: Vec<T> = lat
+        .iter()
+        .map(|r| T::from_raw(r).unwrap_or_else(|| mc_core::machinery_error("lattice value out of range")))
+        .collect();
+    for (r, x) in lat.iter().zip(values.iter()) {
+        if &x.raw() != r {
+            mc_core::machinery_error("raw limb conversion of the harness does not round-trip");
+        }
+    }
+    par_for(ctx, &values, |x, l| {
+        l.eval();
+        check_value_roundtrip::<T>(x, "lattice", l, col);
+    });
+    // (2a) all short strings
+    let n = mc_core::gen::count_upto(ALPHABET.len() as u64, max_len);
+    par_range(ctx, n, 1 << 14, |i, l| {
+        let mut buf = Vec::with_capacity(16);
+        mc_core::gen::nth_string(&ALPHABET, i, &mut buf);
+        let s = std::str::from_utf8(&buf).expect("ascii alphabet");
+        check_string::<T>(s, "short-strings", l, col);
+        if i % 1_000_003 == 17 {
+            let o = T::parse(s).map(|x| x.print());
+            l.sample(|| json!({"type": T::NAME, "input": s, "from_str": format!("{o:?}")}));
+        }
+    });
+    // (2b) boundary numerals, (2c) mutations and insertions
+    let bn = boundary_numerals::<T>();
+    par_for(ctx, &bn, |s, l| check_string::<T>(s, "boundary-numerals", l, col));
+    let mn = mutated_numerals::<T>();
+    par_for(ctx, &mn, |s, l| check_string::<T>(s, "mutations-and-insertions", l, col));
+    ctx.sample(json!({"type": T::NAME, "input": bn[bn.len() / 2], "from_str": format!("{:?}", T::parse(&bn[bn.len() / 2]).map(|x| x.print()))}));
+    cov.insert(
+        T::NAME.to_string(),
+        json!({"lattice_values": lat.len(), "short_strings": n, "short_string_max_len": max_len, "boundary_numerals": bn.len(), "mutations_and_insertions": mn.len()}),
+    );
+}
+
+fn replay(ctx: Ctx) -> ! {
+    let case = ctx.read_replay_case().unwrap_or_else(|| mc_core::machinery_error("no replay case"));
+    let ty = case.get("type").and_then(|t| t.as_str()).unwrap_or("Decimal").to_string();
+    let col = Collector::default();
+    let mut l = Local::new();
+    fn one<T: Fx>(case: &Value, l: &mut Local, col: &Collector) {
+        if let Some(s) = case.get("input").and_then(|s| s.as_str()) {
+            println!("input      : {s:?}");
+            println!("reference  : {:?}", reference_read(s, T::SCALE, T::BITS));
+            println!("{}::from_str: {:?}", T::NAME, mc_core::catch(|| T::parse(s).map(|x| x.print())));
+            check_string::<T>(s, "replay", l, col);
+        } else if let Some(r) = case.get("raw").and_then(|s| s.as_str()) {
+            let raw = BigInt::from_str(r).unwrap_or_else(|_| mc_core::machinery_error("bad raw in replay"));
+            let x = T::from_raw(&raw).unwrap_or_else(|| mc_core::machinery_error("raw out of range in replay"));
+            println!("raw        : {raw}");
+            println!("reference  : {}", reference_print(&raw, T::SCALE));
+            println!("to_string  : {:?}", mc_core::catch(|| x.print()));
+            check_value_roundtrip::<T>(&x, "replay", l, col);
+        } else {
+            mc_core::machinery_error("replay case has neither input nor raw");
+        }
+    }
+    if ty == "PreciseDecimal" {
+        one::<PreciseDecimal>(&case, &mut l, &col);
+    } else {
+        one::<Decimal>(&case, &mut l, &col);
+    }
+    ctx.merge(l);
+    col.flush(&ctx);
+    ctx.finish(Level::Exploration, "replay of one case", 1, true, Map::new(), &[])
+}
+
+pub fn run(ctx: Ctx) -> ! {
+    if ctx.replay.is_some() {
+        replay(ctx);
+    }
+    // self-test of the reference reader on hand-computed cases (machinery error, never a verdict)
+    {
+        let one = pow10(18);
+        let chk = |s: &str, e: Ref| {
+            if reference_read(s, 18, 192) != e {
+                mc_core::machinery_error(&format!("reference reader self-test failed on {s:?}"));
+            }
+        };
+        chk("1.5", Ref::Accept(&one * 3u32 / 2u32));
+        chk("-0.05", Ref::Accept(-&one / 20u32));
+        chk("007", Ref::Accept(&one * 7u32));
+        chk("-0", Ref::Accept(BigInt::zero()));
+        chk("1.-5", Ref::Reject("malformed"));
+        chk("", Ref::Reject("no-digits"));
+        chk("-.", Ref::Reject("no-digits"));
+        chk("0.0000000000000000001", Ref::Reject("too-many-fraction-digits"));
+        chk("3138550867693340381917894711603833208051.177722232017256447", Ref::Accept(max_raw(192)));
+        chk("3138550867693340381917894711603833208051.177722232017256448", Ref::Reject("out-of-range"));
+        chk("-3138550867693340381917894711603833208051.177722232017256448", Ref::Accept(-max_raw(192) - 1u32));
+        chk("+5", Ref::Silent("leading-plus", &one * 5u32));
+        chk("1.", Ref::Silent("empty-fraction", one.clone()));
+        chk(".5", Ref::Silent("empty-integer-part", &one / 2u32));
+        if reference_print(&(-&one / 20u32), 18) != "-0.05" || reference_print(&(&one * 120u32), 18) != "120" {
+            mc_core::machinery_error("reference printer self-test failed");
+        }
+        if !is_signed_fraction("1.-5") || !is_signed_fraction("-0.+0") || is_signed_fraction("1.5") || is_signed_fraction("1.-") {
+            mc_core::machinery_error("signed-fraction classifier self-test failed");
+        }
+    }
+    let max_len = ctx.pick(7, 9);
+    let col = Collector::default();
+    let mut cov = Map::new();
+    run_type::<Decimal>(&ctx, &col, max_len, &mut cov);
+    run_type::<PreciseDecimal>(&ctx, &col, max_len, &mut cov);
+    col.flush(&ctx);
+
+    let classes = ctx.classes();
+    // measured: distinct strings that got past every rejection branch (accepted, or failing the oracle)
+    // + distinct lattice values
+    let nontrivial: u64 = classes.iter().filter(|(k, _)| k.starts_with("parse:accepted") || k.starts_with("parse:silent-form-accepted")).map(|(_, n)| *n).sum::<u64>()
+        + col.total()
+        + cov.values().map(|v| v.get("lattice_values").and_then(|x| x.as_u64()).unwrap_or(0)).sum::<u64>();
+    let rule = format!(
+        "both types: every lattice value printed+read back; every string of length <= {max_len} over {{0,1,9,-,+,.,space,e,a,_}}; boundary numerals (13 integer parts x fraction lengths 1,scale-1,scale,scale+1,scale+2 x 3 signs); all single-point mutations over 16 ASCII bytes + 5 non-ASCII chars and all <=3-char insertions of {{-,+,.}} of 8 numerals. A case is one (type, string) or (type, value); non-trivial = distinct strings accepted as a numeral (or failing) + distinct lattice values printed and read back"
+    );
+    ctx.finish(
+        Level::Exploration,
+        &rule,
+        nontrivial,
+        true,
+        cov,
+        &[
+            "statement-silent forms (leading '+', '1.', '.5') are informational either way",
+            "a panic of from_str on a non-numeral counts as 'not accepted' (the statement does not promise panic-freedom); on a numeral it is a violation",
+            "printed text must denote the exact value; not being the shortest form is informational",
+            "strings longer than the bound are covered only through the boundary/mutation families",
+        ],
+    )
 }
